@@ -145,9 +145,9 @@ def radius_jobs(tier, out):
                           (4, "attr-data", "radius_pkt_attr_get_data_ptr(_raw)")):
             J(out, "radius-%s-L%d" % (nm, L), "radius.c", {"T": t, "LEN": L}, "checked packet in %d received bytes, any offset" % L,
               ds + ": returned attribute/data inside the packet", unwind=L // 3 + 3, kfs=("KF_RADIUS_ATTR_OFF_END",))
-        for nb in ([4] if q else [1, 4, 8]):
-            if q and L > 23:
-                continue
+        for nb in ([1, 4] if q else [1, 4, 8]):
+            if q and ((nb == 4 and L > 23) or (nb == 1 and L != 26)):
+                continue   # quick: B4 at L20/L23, plus B1 at L26 (an attribute larger than the whole out buffer; seeded change C13-radius-tobuf-wrap)
             J(out, "radius-attr-tobuf-L%d-B%d" % (L, nb), "radius.c", {"T": 5, "LEN": L, "NBUF": nb},
               "checked packet in %d received bytes, out buffer %d, any offset/count/type" % (L, nb),
               "radius_pkt_attr_get_data_to_buf: in-bounds reads/writes", unwind=L // 3 + 4, kfs=("KF_RADIUS_ATTR_OFF_END",))
